@@ -50,3 +50,5 @@ package module
 //@ extern func (Delivery).Commit(d Delivery, ctx context.Context) error
 //@ extern func (PartialDelivery).BodyNonAtomic(d PartialDelivery, ctx context.Context, c StatusCollector, header textproto.Header, body buffer.Buffer)
 //@ extern func (StatusCollector).SetStatus(c StatusCollector, rcptTo string, err error)
+//@ extern func (DeliveryTarget).Start(t DeliveryTarget, ctx context.Context, msgMeta *MsgMetadata, mailFrom string) (d Delivery, err error)
+//@   ensures err == nil ==> d != nil
